@@ -712,4 +712,92 @@ impl World<Tok> {
             self.check_reg(out, r, &op);
         }
     }
+
+    /// `iter r variant pattern`: element iterators (sequential and parallel), consumed following
+    /// a pattern of F(ront)/B(ack) calls and then drained from the front
+    pub fn iter(&mut self, out: &mut Out, r: usize, variant: &str, pattern: &str) {
+        use matreex::parallel::*;
+        use matreex::Index;
+        let op = format!("iter {r} {variant} {pattern}");
+        out.announce(&op);
+        let pat: Vec<char> = if pattern == "-" { Vec::new() } else { pattern.chars().collect() };
+        // generic consumption of an ExactSize + DoubleEnded iterator
+        fn consume<I: ExactSizeIterator + DoubleEndedIterator>(mut it: I, pat: &[char]) -> Vec<(usize, I::Item)> {
+            let mut items = Vec::new();
+            let mut p = pat.iter();
+            loop {
+                let len = it.len();
+                let x = match p.next() {
+                    Some('B') => it.next_back(),
+                    _ => it.next(),
+                };
+                match x {
+                    Some(v) => items.push((len, v)),
+                    None => break,
+                }
+            }
+            items
+        }
+        let with_index = variant.contains("wi");
+        let consuming = variant.starts_with("into");
+        let (order, rf) = self.refs[r].clone().unwrap();
+        let _ = order;
+        // (len before the call, index if reported, payload, address of the element if borrowed)
+        let mut got: Vec<(usize, Option<Index>, String, usize)> = Vec::new();
+        let res = {
+            let regs = &mut self.regs;
+            catch(|| match variant {
+                "elems" => { let m = regs[r].as_ref().unwrap(); got = consume(m.iter_elements(), &pat).into_iter().map(|(l, e)| (l, None, e.val.clone(), e as *const Tok as usize)).collect(); }
+                "elems_mut" => { let m = regs[r].as_mut().unwrap(); got = consume(m.iter_elements_mut(), &pat).into_iter().map(|(l, e)| (l, None, e.val.clone(), e as *const Tok as usize)).collect(); }
+                "into" => { let m = regs[r].take().unwrap(); got = consume(m.into_iter_elements(), &pat).into_iter().map(|(l, e)| (l, None, e.val.clone(), (1usize << 63) | e.id as usize)).collect(); }
+                "wi" => { let m = regs[r].as_ref().unwrap(); got = consume(m.iter_elements_with_index(), &pat).into_iter().map(|(l, (i, e))| (l, Some(i), e.val.clone(), e as *const Tok as usize)).collect(); }
+                "wi_mut" => { let m = regs[r].as_mut().unwrap(); got = consume(m.iter_elements_mut_with_index(), &pat).into_iter().map(|(l, (i, e))| (l, Some(i), e.val.clone(), e as *const Tok as usize)).collect(); }
+                "into_wi" => { let m = regs[r].take().unwrap(); got = consume(m.into_iter_elements_with_index(), &pat).into_iter().map(|(l, (i, e))| (l, Some(i), e.val.clone(), (1usize << 63) | e.id as usize)).collect(); }
+                // parallel forms: collected (an indexed parallel iterator collects in order); the
+                // `len` column is the number of items still to come
+                "par" => { let m = regs[r].as_ref().unwrap(); let v: Vec<&Tok> = m.par_iter_elements().collect(); let n = v.len(); got = v.into_iter().enumerate().map(|(k, e)| (n - k, None, e.val.clone(), e as *const Tok as usize)).collect(); }
+                "par_mut" => { let m = regs[r].as_mut().unwrap(); let v: Vec<&mut Tok> = m.par_iter_elements_mut().collect(); let n = v.len(); got = v.into_iter().enumerate().map(|(k, e)| (n - k, None, e.val.clone(), e as *const Tok as usize)).collect(); }
+                "into_par" => { let m = regs[r].take().unwrap(); let v: Vec<Tok> = m.into_par_iter_elements().collect(); let n = v.len(); got = v.into_iter().enumerate().map(|(k, e)| (n - k, None, e.val.clone(), (1usize << 63) | e.id as usize)).collect(); }
+                "par_wi" => { let m = regs[r].as_ref().unwrap(); let v: Vec<(Index, &Tok)> = m.par_iter_elements_with_index().collect(); let n = v.len(); got = v.into_iter().enumerate().map(|(k, (i, e))| (n - k, Some(i), e.val.clone(), e as *const Tok as usize)).collect(); }
+                "par_wi_mut" => { let m = regs[r].as_mut().unwrap(); let v: Vec<(Index, &mut Tok)> = m.par_iter_elements_mut_with_index().collect(); let n = v.len(); got = v.into_iter().enumerate().map(|(k, (i, e))| (n - k, Some(i), e.val.clone(), e as *const Tok as usize)).collect(); }
+                "into_par_wi" => { let m = regs[r].take().unwrap(); let v: Vec<(Index, Tok)> = m.into_par_iter_elements_with_index().collect(); let n = v.len(); got = v.into_iter().enumerate().map(|(k, (i, e))| (n - k, Some(i), e.val.clone(), (1usize << 63) | e.id as usize)).collect(); }
+                _ => unreachable!(),
+            })
+        };
+        if consuming { self.refs[r] = None; }
+        // oracle: every element exactly once; every reported index is the unique coordinate for
+        // which get() returns that very element (same address for the borrowing variants)
+        let size = rf.nrows * rf.ncols;
+        if res.is_none() {
+            out.oracle_fail(&format!("{op}: iteration panicked"));
+        } else {
+            if got.len() != size {
+                out.oracle_fail(&format!("{op}: {} items for {size} elements", got.len()));
+            }
+            let mut seen = std::collections::HashSet::new();
+            for (_, idx, val, addr) in &got {
+                if !seen.insert(*addr) {
+                    out.oracle_fail(&format!("{op}: element {val} visited twice"));
+                }
+                if let Some(i) = idx {
+                    if i.row >= rf.nrows || i.col >= rf.ncols || rf.rows[i.row][i.col] != *val {
+                        out.oracle_fail(&format!("{op}: element {val} reported at ({}, {}), where the matrix holds {}", i.row, i.col,
+                            if i.row < rf.nrows && i.col < rf.ncols { rf.rows[i.row][i.col].clone() } else { "nothing (out of bounds)".to_string() }));
+                    } else if *addr >> 63 == 0 {
+                        if let Some(m) = self.regs[r].as_ref() {
+                            if m.get((i.row, i.col)).map(|e| e as *const Tok as usize).ok() != Some(*addr) {
+                                out.oracle_fail(&format!("{op}: get(({}, {})) is not the element that was paired with this index", i.row, i.col));
+                            }
+                        }
+                    }
+                }
+            }
+        }
+        let items: Vec<String> = got.iter().map(|(l, idx, val, _)| match idx {
+            Some(i) if with_index => format!("{l}:{}.{}={val}", i.row, i.col),
+            _ => format!("{l}:{val}"),
+        }).collect();
+        out.observe(&if res.is_some() { format!("ok [{}]", items.join(",")) } else { "panic".to_string() });
+        self.check_reg(out, r, &op);
+    }
 }
